@@ -51,3 +51,21 @@ func init() {
 		return &cell
 	}
 }
+
+func init() {
+	// Harness helper (C15 image backend): the gzip stream and digests of a
+	// fake layer. Layer validation is assumed under the engine, so fixed,
+	// distinct digests per index stand in for the real ones.
+	externals["github.com/crossplane/crossplane/internal/controller/pkg/revision.zzLayerIdentity"] = func(fr *frame, args []value) value {
+		idx := args[0].(int)
+		hex := func(c byte) string {
+			b := make([]byte, 64)
+			for i := range b {
+				b[i] = c
+			}
+			return string(b)
+		}
+		h := func(c byte) value { return structure{"sha256", hex(c)} }
+		return tuple{[]value(nil), h(byte('0' + idx)), h(byte('a' + idx))}
+	}
+}
